@@ -109,7 +109,36 @@ class C14(Prop):
             rc, lines = dbopen("disk", qs, xdg=xdg, tag="c14")
             runs.append((f"reopened on-disk {i}", lines))
         shutil.rmtree(xdg, ignore_errors=True)
+        # a LONG-LIVED on-disk session keeps answering from what it opened, whatever another start
+        # of the tool does to the data directory meanwhile (harness `dbhold`: the index directory is
+        # recreated by a start that is killed before it commits; the session is asked again more
+        # than a second later)
+        held = SCR / "xdg-c14-held"
+        shutil.rmtree(held, ignore_errors=True)
+        dbopen("disk", qs[:5], xdg=held, tag="c14")
+        qf = SCR / f"queries-c14-hold-{os.getpid()}.txt"
+        hq = [q for q in ["population finland", "mass earth", "radius moon", "pop", "speed of light"]]
+        qf.write_text("\n".join(C.hexs(q) for q in hq) + "\n")
+        env = dict(C.ENV, XDG_DATA_HOME=str(held), HOME=str(held))
+        env.pop("ANYTHING_VERIF_CRASH", None)
+        hp = subprocess.run([C.harness_bin(False), "dbhold", str(qf)], capture_output=True, text=True, env=env, timeout=300)
+        qf.unlink(missing_ok=True)
+        shutil.rmtree(held, ignore_errors=True)
+        hl = hp.stdout.splitlines()
+        held_fail = None
+        if "FIRST" in hl and "SECOND" in hl:
+            a1, a2 = hl[hl.index("FIRST") + 1: hl.index("SECOND")], hl[hl.index("SECOND") + 1:]
+            bad = [(q, x, y) for q, x, y in zip(hq, a1, a2) if x != y]
+            if bad:
+                q, x, y = bad[0]
+                show = lambda a: C.unhex(a.split(" ")[1]) if a.startswith("A ") and len(a.split(" ")) > 1 else a
+                held_fail = (f"held-session:{q}", q, f"an on-disk session kept open answers {q!r} with {show(x)!r}; after another start recreated the index directory "
+                             f"and was killed before committing, the SAME session answers {show(y)!r}")
+        else:
+            held_fail = ("held-session:setup", "dbhold", f"the long-lived session scenario did not run: {hp.stdout[-200:]} {hp.stderr[-200:]}")
         ref_name, ref = runs[0]
+        if held_fail:
+            spec_fail.append(held_fail)
         for name, lines in runs[1:]:
             if len(lines) != len(ref):
                 spec_fail.append((f"run:{name}", name, f"{name}: {lines[:1]}"))
